@@ -157,6 +157,13 @@ func c18WriteBytes(out io.Writer, b []byte, err error) error {
 	return err
 }
 
+func c18Tail(b []byte, n int) string {
+	if len(b) < n {
+		return hx(b)
+	}
+	return hx(b[n:])
+}
+
 var c18Sers = []c18Ser{
 	{"Bundle.WriteTo(b1)", func(w *c18World, out io.Writer) error { _, err := w.bundleB1.WriteTo(out); return err }},
 	{"Bundle.WriteTo(b2)", func(w *c18World, out io.Writer) error { _, err := w.bundleB2.WriteTo(out); return err }},
@@ -644,6 +651,24 @@ func init() {
 					c.Outcome("DIFFERENT BYTES")
 					c.Fail(key, "a call in a history produced bytes that differ from the same call on a fresh copy of the same logical input", desc, hx(want.Bytes()), fmt.Sprintf("%s err=%v/%v", hx(out.Bytes()), err, werr))
 					return
+				}
+				// destination history: the same call into a bundle.CountingWriter the caller has already written
+				// other bytes through (an integrity block, an earlier bundle) must deliver the same bytes behind
+				// that prefix - the output is a function of the logical input, not of what the destination counted
+				if strings.HasPrefix(c18Sers[o.ser].name, "Bundle.WriteTo") {
+					var sink bytes.Buffer
+					cw := bundle.NewCountingWriter(&sink)
+					prefix := []byte("bytes the caller wrote through the counter first")
+					if len(retained) > 0 {
+						prefix = append(prefix, retained[len(retained)-1].snap...)
+					}
+					cw.Write(prefix)
+					cerr := c18Sers[o.ser].run(shared, cw)
+					if cerr != nil || sink.Len() < len(prefix) || !bytes.Equal(sink.Bytes()[len(prefix):], out.Bytes()) {
+						c.Outcome("DESTINATION-DEPENDENT BYTES")
+						c.Fail(key+":used-counting-writer", "bytes written into a caller's already used bundle.CountingWriter differ from the bytes written into a fresh buffer", desc, hx(out.Bytes()), fmt.Sprintf("%s err=%v", c18Tail(sink.Bytes(), len(prefix)), cerr))
+						return
+					}
 				}
 				// injectivity: once an input that this serializer encodes has changed, its
 				// bytes must change too (catches stale memoised results that the
